@@ -42,7 +42,13 @@ def _required():
            "obj_http_post_fails_at_use", "obj_http_post_fails_body", "obj_http_post_fails_status", "obj_http_post_fails_header",
            "obj_http_post_fails_notjson", "obj_grpc_post_fails_at_list", "obj_grpc_post_fails_at_order", "obj_grpc_post_fails_payload",
            "invocations_dropped_while_shots_overlap",
-           "instances_2_4", "instances_5_8", "instances_9_16", "overlap_measured"]
+           "instances_2_4", "instances_5_8", "instances_9_16", "overlap_measured",
+           # schedules (after seeded defect C11/m6): the rps schedule is one object all instances share
+           "sched_rps_single_once", "sched_rps_composite", "sched_rps_composite_2_sections", "sched_rps_composite_3_sections",
+           "sched_rps_composite_4_sections", "sched_rps_composite_as_list", "sched_rps_composite_as_plugin",
+           "sched_rps_section_once", "sched_rps_section_const", "sched_rps_section_pause", "sched_rps_section_unlimited",
+           "sched_startup_once", "sched_startup_gradual", "sched_startup_composite", "sched_startup_instance_step",
+           "sched_rps_composite_with_gradual_startup"]
     cls += ["obj_http_" + c for c in per_scen] + ["obj_grpc_" + c for c in per_scen]
     dropped = set()
     for fid in _known_ids():
@@ -64,7 +70,13 @@ SPEC = {
              "header/date middleware absent / as it is / with a custom headerName; the limit exceeds the file, so preloaded and array ammo "
              "are delivered several times to different instances), http/scenario, "
              "grpc (grpc/json), grpc/scenario; shared-client on/off (1-3 clients); phout or jsonlines aggregator writing to the mem-fs; "
-             "2-16 instances, 2-6 ammo per instance, target think time 0-2.5 ms. Scenarios are built from switches, one per shared "
+             "2-16 instances, 2-6 ammo per instance, target think time 0-2.5 ms. The rps schedule is always the pool's shared one (no "
+             "rps-per-instance): in 6 cases of 10 a composite of 2-4 short sections, written as a list or as {type: composite, nested}, "
+             "of `once`, `const` (1-4 ms), a `const` pause without tokens and `unlimited` (1-2 ms); the counted sections before the last "
+             "hold fewer tokens than there are ammo, so every instance asks the one schedule object for Left and Next while other "
+             "instances move it on to its next section, and the last section outlasts the ammo limit; otherwise one `once` section. "
+             "Instances start all at once or (4 cases of 10) gradually over a few ms: a composite of once / const / pause sections or "
+             "instance_step (from 0 included). Scenarios are built from switches, one per shared "
              "object: preprocessor row mapping source.users[next|rand|last] on a file/csv or file/json source, [next|rand|last] indexing "
              "of an array taken from an earlier response, randInt / randString / uuid as template functions and as preprocessor "
              "functions, a `variables` source with randomised values, header / metadata maps (none, constants, templates), var/jsonpath, "
@@ -81,7 +93,10 @@ SPEC = {
                _T + "/obj_http_post_fails": 0.08, _T + "/obj_grpc_post_fails": 0.08,
                _T + "/invocations_dropped_while_shots_overlap": 0.15,
                _T + "/obj_http_date_middleware_redelivered": 0.02,
-               _T + "/obj_http_date_middleware_redelivered_no_host_header": 0.01},
+               _T + "/obj_http_date_middleware_redelivered_no_host_header": 0.01,
+               # classes added after seeded defect C11/m6 (shared composite rps schedule switching sections under concurrent Left/Next)
+               _T + "/sched_rps_composite": 0.4, _T + "/sched_rps_section_const": 0.2, _T + "/sched_rps_section_once": 0.3,
+               _T + "/sched_startup_gradual": 0.2, _T + "/sched_rps_composite_with_gradual_startup": 0.1},
     "required_classes": _required(),
     "manifest": {
         "technique": ("property testing (rapid) under the Go race detector: generated pool configurations run by the real engine in a child "
